@@ -1,0 +1,52 @@
+//go:build verif
+// +build verif
+
+package quicmemberlist
+
+import (
+	"net"
+
+	"github.com/spikeekips/mitum/base"
+)
+
+// VerifMembersPool exposes the unexported members pool of Memberlist to the
+// verification harness.
+type VerifMembersPool struct {
+	m *membersPool
+}
+
+func NewVerifMembersPool() *VerifMembersPool {
+	return &VerifMembersPool{m: newMembersPool()}
+}
+
+func (p *VerifMembersPool) Set(member Member) bool              { return p.m.Set(member) }
+func (p *VerifMembersPool) Remove(k *net.UDPAddr) (bool, error) { return p.m.Remove(k) }
+func (p *VerifMembersPool) Get(k *net.UDPAddr) (Member, bool)   { return p.m.Get(k) }
+func (p *VerifMembersPool) Exists(k *net.UDPAddr) bool          { return p.m.Exists(k) }
+func (p *VerifMembersPool) Len() int                            { return p.m.Len() }
+func (p *VerifMembersPool) MembersLen(node base.Address) int    { return p.m.MembersLen(node) }
+func (p *VerifMembersPool) Empty()                              { p.m.Empty() }
+func (p *VerifMembersPool) Traverse(f func(Member) bool)        { p.m.Traverse(f) }
+
+func (p *VerifMembersPool) MembersLenOthers(node base.Address, addr *net.UDPAddr) (int, int, bool) {
+	return p.m.MembersLenOthers(node, addr)
+}
+
+// VerifNodeMembers lists the addrs (member ids) kept in the per-node list of node.
+func (p *VerifMembersPool) VerifNodeMembers(node base.Address) []string {
+	var ids []string
+
+	_ = p.m.members.Get(node.String(), func(members []Member, found bool) error {
+		if !found {
+			return nil
+		}
+
+		for i := range members {
+			ids = append(ids, memberid(members[i].Addr()))
+		}
+
+		return nil
+	})
+
+	return ids
+}
